@@ -34,6 +34,8 @@ CLAIMS = {
          "Projects of 1-5 processes receive 1-3 successive updates that remove, add, change (command, environment, working directory, restart policy, back-off, readiness probe, disabled flag) or keep each process, or are identical to the current configuration. The status map must name exactly the added, removed and updated processes; afterwards exactly the new set is listed, unchanged processes kept their command (not signalled, not relaunched), changed ones had the old command terminated and run one launched with the new configuration, removed ones are dead and gone, new ones launched. Replica-count changes through an update and description-only changes are not generated: see DESIGN.md."),
  "C06": ("exploration", "3.C06", "seeded process trees on the simulated kernel (process groups, children and grandchildren, members ignoring the stop signal, slow deaths) x shutdown parameters (signal incl. out-of-range values, parent_only, time-out, shutdown command that succeeds / fails / lies / hangs) x stop, restart and shutdown requests at seeded instants, the shutdown also requested by SIGTERM/SIGINT/SIGHUP delivered to the binary's own handler (src/cmd runHeadless run in simulation); every kill(2) issued is compared with the configuration on the fake clock, the process table is inspected after Run() returned",
          "Every signal the code under test sends goes through the simulated kill(2): the first one must be the configured signal (SIGTERM for out-of-range values), aimed at the process group (the pid with parent_only); SIGKILL follows exactly when the command is still alive shutdown.timeout_seconds later, never earlier and never without a time-out; a shutdown command must run with the process's environment and working directory and SIGKILL follows it only when it fails or times out; after a project shutdown - requested through the API or by a signal to the binary - no member of any managed command's group that was owed a signal is alive. Real OS processes are not used: the kernel is the simulated one (DESIGN.md 2.3)."),
+ "C19": ("exploration", "3.C19", "the C08 / C13 / C14 workloads with every request sent through the real gin engine (api.InitRoutes over the live runner) and the bundled client over an in-process transport, judged by the same oracles; reads taken directly and through REST at the same scheduler instant and compared; seeded invalid raw requests",
+         "Requests and responses travel through the real routing, handlers, JSON encoding and the bundled client's decoding; only the socket is replaced (a RoundTripper that serves the request on the calling simulated task). The outcome of every state-changing request is judged by the oracles of the direct calls (C08 start/stop/restart, C13 scaling, C14 update); state, states, info, names, ports, hostname and project state are read directly, through REST and directly again under a pinned schedule and must agree; 3-10 invalid requests per run (unknown names, non-numeric / out-of-range path parameters, malformed bodies, wrong methods) must be answered 4xx with a message, never 5xx or a panic, and GET /live must still answer. The websocket log stream and real sockets are not exercised: see DESIGN.md."),
  "C11": ("exploration", "3.C11", "seeded simulated runs with scripted output on both streams (chunk splitting, partial last lines, bursts, read errors, restarts); every byte written to the simulated pipes is compared with the log buffer and the log file at the end",
          "What a process wrote to the simulated pipes is ground truth: every complete line must reach the in-memory log and the log file once, in per-stream order, whole (never split or merged across chunk boundaries) and attributed to the right process, across restarts and read errors."),
  "C18": ("exploration", "3.C18", "seeded concurrent writers/readers/subscribers of the log buffer under the cooperative scheduler; porcupine linearizability against a sequential ring model; follower oracle (no loss, duplication or reordering after subscription)",
